@@ -102,7 +102,7 @@ func genME(r *rand.Rand, size int, er byte) (*meSpec, string) {
 	if r.Intn(15) == 0 {
 		nReal = 0
 	}
-	nUnused := pick(r, 5, 3, 2, 1)
+	nUnused := pick(r, 3, 4, 3, 2)
 	total := nReal + nUnused
 	bigTable := r.Intn(10) == 0 && size >= 3*blk
 	if bigTable {
@@ -152,7 +152,7 @@ func genME(r *rand.Rand, size int, er byte) (*meSpec, string) {
 	cur := tableEnd
 	names := []string{"FTPR", "NFTP", "MFS\x00", "FLOG", "UTOK", "PSVN"}
 	for i := 0; i < nReal; i++ {
-		e := fptEntry{name: names[i%len(names)], flags: uint32(r.Intn(6))}
+		e := fptEntry{name: names[i%len(names)], flags: uint32(r.Intn(6)), content: pick(r, 60, 18, 12, 10)}
 		remain := lastEnd - cur
 		var ln int
 		if i == nReal-1 {
@@ -189,8 +189,9 @@ func genME(r *rand.Rand, size int, er byte) (*meSpec, string) {
 			last.length = uint32(r.Intn(256))
 		}
 	}
-	// unused / invalid entries
-	for len(m.entries) < total {
+	// unused / invalid entries, at every table position: first, middle, last
+	var unused []fptEntry
+	for len(m.entries)+len(unused) < total {
 		var e fptEntry
 		switch r.Intn(5) {
 		case 0:
@@ -205,7 +206,44 @@ func genME(r *rand.Rand, size int, er byte) (*meSpec, string) {
 				e.raw[i] = er
 			}
 		}
-		m.entries = append(m.entries, e)
+		unused = append(unused, e)
+	}
+	placeUnused := pick(r, 30, 20, 30, 20) // 0 behind the partitions, 1 in front, 2 before the last partition, 3 anywhere
+	if bigTable {
+		placeUnused = 0
+	}
+	for _, u := range unused {
+		at := len(m.entries)
+		switch placeUnused {
+		case 1:
+			at = 0
+		case 2:
+			if nReal > 0 {
+				// directly in front of the partition that ends last (it is the last real one appended)
+				for k, e := range m.entries {
+					if e.raw == nil && e.name == names[(nReal-1)%len(names)] && e.offset != 0 && e.offset != 0xffffffff {
+						at = k
+					}
+				}
+			}
+		case 3:
+			at = r.Intn(len(m.entries) + 1)
+		}
+		m.entries = append(m.entries[:at], append([]fptEntry{u}, m.entries[at:]...)...)
+	}
+	if placeUnused != 0 && len(unused) > 0 {
+		kind += "+unused-inside"
+	}
+	// the partition that ends last is often a never-written (erased) or partly written data partition:
+	// only then does a wrong boundary pass the erased check
+	if nReal > 0 && r.Intn(3) == 0 {
+		for k := range m.entries {
+			e := &m.entries[k]
+			if e.raw == nil && e.name == names[(nReal-1)%len(names)] && e.offset != 0 && e.offset != 0xffffffff {
+				e.content = 1 + r.Intn(3)
+			}
+		}
+		kind += "+last-erased"
 	}
 	if r.Intn(4) == 0 && !bigTable { // order does not matter for the maximum
 		r.Shuffle(len(m.entries), func(i, j int) { m.entries[i], m.entries[j] = m.entries[j], m.entries[i] })
